@@ -52,7 +52,6 @@ func (c *calib) Rep(n, r uint32) (uint32, bool) {
 		// sampler now would re-enter the library. Serve the textbook guess
 		// unverified; bounds up to 512 are calibrated at start-up and big
 		// bounds by the checks that use them, so this is rare and counted.
-		inlineGuesses++
 		return r, true
 	}
 	saved := curTape()
@@ -79,8 +78,6 @@ func (c *calib) Rep(n, r uint32) (uint32, bool) {
 	c.fail[n] = true
 	return r, false
 }
-
-var inlineGuesses int
 
 // precalibrate fills the representative table for every bound up to max.
 func precalibrate(max uint32) {
